@@ -170,6 +170,14 @@ theorem eventually_done_all_ended {cfg : Config} {s : State} (hr : Reach cfg s)
     ∃ s', InternalPath s s' ∧ s'.done = true :=
   eventually_done hr (Or.inr ⟨hall, by intro c h; rw [hw] at h; cases h⟩)
 
+/-- The liveness half in the statement's own terms: when every member has ended and the pool
+tracks nothing but members (no `Add` slipped in after the last member ended, see
+`racing_add_may_be_tracked`), internal steps lead to done. -/
+theorem eventually_done_members {cfg : Config} {s : State} (hr : Reach cfg s)
+    (hw : s.writer = none) (hm : ∀ m ∈ s.members, m ∈ s.ended) (hp : ∀ c ∈ s.pool, c ∈ s.members) :
+    ∃ s', InternalPath s s' ∧ s'.done = true :=
+  eventually_done_all_ended hr hw (fun c hc => hm c (hp c hc))
+
 /-- A pool created with no live context is done after internal steps alone. -/
 theorem eventually_done_empty (cfg : Config) (h : ∀ c ∈ cfg.ctxs, c ∈ cfg.ended0) :
     ∃ s', InternalPath (init cfg) s' ∧ s'.done = true := by
